@@ -99,6 +99,30 @@ def check_one(ctx, w, cfg, steps):
     return probs, single
 
 
+def nonl_midfile(w):
+    """known finding no-newline-midfile: some hunk uses '\\ No newline at end of file' on a line that is followed by
+    further lines of the same side in the same hunk"""
+    for text in w["patches"].values():
+        ls = text.split(b"\n")
+        for i, l in enumerate(ls):
+            if l.startswith(b"\\") and i > 0 and ls[i - 1][:1] in (b" ", b"+", b"-"):
+                k = ls[i - 1][:1]
+                for later in ls[i + 1:]:
+                    if later[:1] not in (b" ", b"+", b"-", b"\\") or later.startswith((b"--- ", b"+++ ")):
+                        break
+                    if (k in b" +" and later[:1] in (b" ", b"+")) or (k in b" -" and later[:1] in (b" ", b"-")):
+                        return True
+    return False
+
+
+def corpus():
+    base = l3gen.default_cfg()
+    w = {"files": {b"f": (b"a\nb\n", 0o644)}, "dirs": [], "applied": None, "series": b"p1.patch\np2.patch\n",
+         "patches": {b"p1.patch": b"--- a/f\n+++ b/f\n@@ -1,2 +1,2 @@\n-a\n+A\n\\ No newline at end of file\n b\n",
+                     b"p2.patch": b"--- a/f\n+++ b/f\n@@ -2 +2 @@\n-b\n+B\n"}}
+    return [(w, dict(base), [(("C", 1), 1), (("A",), 1)])]
+
+
 def run(ctx):
     rng = ctx.rng
     thorough = ctx.tier == "thorough"
@@ -106,13 +130,18 @@ def run(ctx):
     cases, singles = [], []
     hist = ctx.coverage.setdefault("input_histogram", __import__("collections").Counter())
     bad = 0
-    for _ in range(n):
-        w = l3gen.gen_workspace(rng, npatches=rng.randint(2, 6), fail_prob=0.35)
-        names = l3common.series_names(w)
-        if len(names) < 2:
-            continue
-        cfg = l3common.rand_cfg(rng)
-        steps = rand_steps(rng, names, len(names))
+    todo = corpus() + [None] * n
+    for item in todo:
+        if item is not None:
+            w, cfg, steps = item
+            names = l3common.series_names(w)
+        else:
+            w = l3gen.gen_workspace(rng, npatches=rng.randint(2, 6), fail_prob=0.35)
+            names = l3common.series_names(w)
+            if len(names) < 2:
+                continue
+            cfg = l3common.rand_cfg(rng)
+            steps = rand_steps(rng, names, len(names))
         from props.C06 import file_patches
         if file_patches(ctx, w) is None:
             # a patch that does not parse: the parallel driver loads every patch of the range first and refuses the
@@ -130,6 +159,11 @@ def run(ctx):
         c1["threads"] = 1
         cases.append((w, c1))
         singles.append(single)
+        if probs and nonl_midfile(w):
+            ctx.known_finding("no-newline-midfile: a hunk that marks a line as lacking its newline although further lines of the same side "
+                              "follow leaves that line in the middle of the in-memory file; a later invocation loads the saved file with the "
+                              "two lines joined, so one push and split pushes differ")
+            probs = []
         if probs:
             bad += 1
             if bad <= 2:
@@ -155,13 +189,15 @@ def model_composes(ctx, cases):
         c1 = dict(c)
         c1["goal"] = ("C", 1)
         m1 = ctx.model([l3gen.model_line(w, c1)])[0]
-        if l3gen.model_err(m1) or l3gen.model_err(m_single) == "outofmodel":
-            continue
+        if l3gen.model_err(m1) or l3gen.model_err(m_single):
+            continue          # a push that ends with an error writes nothing (C17): not comparable with a split
         w2 = ws_from_model(w, l3gen.strip_err(m1))
         if w2 is None:
             continue
         m2 = ctx.model([l3gen.model_line(w2, c)])[0]
         a, b = l3gen.strip_err(m_single).split(" | "), l3gen.strip_err(m2).split(" | ")
+        if a != b and nonl_midfile(w):
+            continue          # known finding no-newline-midfile (reported by the run on the binary above)
         if a != b:
             ctx.violation({"kind": "model-does-not-compose", "workspace": l3common.ws_json(w), "only_single": [x[:120] for x in a if x not in b][:4],
                            "only_split": [x[:120] for x in b if x not in a][:4]}, no_input=True)
